@@ -287,6 +287,26 @@ def lz_tie(ctx, cd):
     ctx.cov["traces_validated_against_impl"] += ok
 
 
+def wide_sequences(ctx):
+    """thorough tier: round trips of inputs whose parse contains the widest sequence the format allows (58 extra bits), 128 MiB apart"""
+    exe = core.build_harness("c01_big", ["c01_big.c"], variant="o1", extra_flags=["-w"])
+    rc, out, err = core.sh([exe, "16"], timeout=1500)
+    n = 0
+    for l in out.splitlines():
+        t = l.split(" ")
+        if len(t) >= 3 and t[2] == "FAIL":
+            ctx.violation(dict(kind="wide-sequence", harness="harness/c01_big.c", v=int(t[0]), mode=int(t[1]), result=" ".join(t[3:]),
+                               how="build/bin/c01_big/<exe> 16 ; line '%s'" % l),
+                          what="round trip fails on a 128 MiB input whose last block holds one sequence with >= 64 KiB literals, a >= 32771-byte match at distance >= 2^27 "
+                               "followed by %s short sequences (%s): %s" % (t[0], "level 1 + LDM, windowLog 28" if t[1] == "0" else "level 5, windowLog 28", " ".join(t[3:])))
+        elif len(t) >= 3 and t[2] == "OK":
+            n += 1
+            ctx.count(("wide-sequence", t[1]), nontrivial=True)
+    if rc != 0 and not out:
+        ctx.violation(dict(kind="harness-crash", harness="c01_big", detail=err[-500:]), what="c01_big crashed: %s" % err[-200:])
+    ctx.notes["wide_sequence_round_trips"] = n
+
+
 def search_tables(ctx, cd):
     """model-side witness for a broken table theorem: compress inputs that use every LL/ML/OF code and round-trip them"""
     rng = random.Random(ctx.seed + 99)
@@ -319,6 +339,8 @@ def run(ctx):
     if not ctx.replay_file:
         header_tie(ctx, cd)
         lz_tie(ctx, cd)
+        if ctx.tier == "thorough":
+            wide_sequences(ctx)
     ctx.notes["block_histogram"] = hist
     ctx.notes["input_kinds"] = {k: sum(1 for c in cases if c["kind"] == k) for k in set(c["kind"] for c in cases)}
     ctx.notes["entries"] = {k: sum(1 for c in cases if c["entry"].split(":")[0] == k) for k in set(c["entry"].split(":")[0] for c in cases)}
